@@ -38,6 +38,8 @@ structure Cont where
   cl : Array Color := Array.replicate (maxId + 2) Color.black
   key : Array Int := Array.replicate (maxId + 2) 0
   hd : Hd := { root := 0, size := 0 }
+  /-- header of the other operand of `swap` (same element pool, initially empty) -/
+  hd2 : Hd := { root := 0, size := 0 }
   /-- highest element address handed to the library so far -/
   hi : Nat := 0
 
@@ -106,8 +108,8 @@ def ordS : Ord → String
 def evsS (evs : List Ev) : String :=
   "[" ++ ",".intercalate (evs.map fun (e, o) => s!"{e.id}:{ordS o}") ++ "]"
 
-def lowestFree (t : Tree) : Nat :=
-  let used := t.ids.foldl (fun (a : Array Bool) i => if i < a.size then a.set! i true else a)
+def lowestFree (ids : List Nat) : Nat :=
+  let used := ids.foldl (fun (a : Array Bool) i => if i < a.size then a.set! i true else a)
     (Array.replicate (maxId + 2) false)
   ((List.range' 1 (maxId + 1)).find? (fun i => !used[i]!)).getD (maxId + 1)
 
@@ -130,8 +132,13 @@ def tstep (s : TState) (ws : List String) : TState × String :=
     let fin (ct' : Cont) (r : String) (full : Bool := false) : TState × String :=
       (if isRb then { s with rb := ct' } else { s with bt := ct' },
        r ++ " | " ++ dumpCont kind (s.hash && !full) ct')
-    let fresh (id : Nat) : Bool := id ≥ 1 ∧ id ≤ maxId ∧ !(t.ids.contains id)
-    let auto (id : Nat) : Nat := if id = 0 then lowestFree t else id
+    -- ids in use: the tree and its swap partner
+    let auxT : Tree := match ({ ct with hd := ct.hd2 } : Cont).read with
+      | .ok t => t
+      | .error _ => .nil
+    let used : List Nat := t.ids ++ auxT.ids
+    let fresh (id : Nat) : Bool := id ≥ 1 ∧ id ≤ maxId ∧ !(used.contains id)
+    let auto (id : Nat) : Nat := if id = 0 then lowestFree used else id
     -- the standard operations are one `btStepL` / `rbStepL` (Model.lean): the step functions of the
     -- history theorems of Props.lean
     let run (op : LOp) (hi : Nat) (fmt : Nat → Nat → String) : TState × String :=
@@ -176,7 +183,7 @@ def tstep (s : TState) (ws : List String) : TState × String :=
         match io[r % io.length]? with
         | none => bad
         | some hint =>
-          let id := lowestFree t
+          let id := lowestFree used
           if !fresh id then bad else insert id k hint.id s!"ok h={hint.id}"
       | _, _ => bad
     | ["find", k] =>
@@ -196,6 +203,9 @@ def tstep (s : TState) (ws : List String) : TState × String :=
       | none => bad
     | ["clear"] =>
       run .clear 0 (fun _ _ => showList ((clearOrder t).map (·.id)) ++ " p=1")
+    | ["swap"] =>
+      -- `cstl_bintree_swap` (`cstl_rbtree_swap`): the two headers trade places (Tie3.swap_tie)
+      fin { ct with hd := ct.hd2, hd2 := ct.hd } "ok"
     | ["show"] => fin ct "ok" true
     | _ => bad
   | _ => bad
